@@ -285,6 +285,9 @@ ITEMS = location_types() + budget_types() + error_types() + [
                         && (r is Err <==> (b.report.breached is Some
                                 || ratio_breached(b.report.aliases as nat, b.defined_anchors@.len(), b.budget)))
                         && (r is Err ==> r->Err_0 is Budget) }'''),
+             ('frame', '''final(self).seen_doc_end == old(self).seen_doc_end && final(self).look == old(self).look
+                    && final(self).error == old(self).error && final(self).rec_stack == old(self).rec_stack
+                    && final(self).anchors == old(self).anchors && final(self).inject == old(self).inject'''),
          ],
          canaries=['C10:stored_io_error_is_reported_at_the_end', 'C07:delayed_breach_is_surfaced']),
 
@@ -405,4 +408,14 @@ ITEMS = location_types() + budget_types() + error_types() + [
                      decreases='self.parser.pending().len()'),
          },
          ),
+    dict(src=L, path='impl LiveEvents/fn seen_doc_end', props=['C11'],
+         ensures=[('value', 'r == self.seen_doc_end')]),
+    dict(src='src/de/with_deserializer.rs', path='fn enforce_single_document_and_finish', props=['C05', 'C11', 'C10', 'C01'],
+         rewrites=[(r'Error::multiple_documents\(multiple_docs_hint\)', 'error_multiple_documents(multiple_docs_hint)', None, 'R8'),
+                   (r'src\.finish\(\)\.map_err\(wrap_err\)', '(match src.finish() { Ok(__v) => Ok(__v), Err(__e) => Err(wrap_err(__e)) })', None, 'R18')],
+         requires=[('wrapper_is_total', 'forall|e: Error| wrap_err.requires((e,))')],
+         ensures=[
+             ('C05:nothing_may_be_left_after_the_root_value', '''r is Ok ==> old(src).rest().len() == 0 || final(src).seen_doc_end'''),
+         ],
+         canaries=['C05:nothing_may_be_left_after_the_root_value']),
 ]
